@@ -58,6 +58,7 @@ type File struct {
 
 	readOpReader *ioext.CounterReadCloser
 	readOpWriter io.WriteCloser
+	readOffset   int64 // Position of the next read; can be behind the end of the file after a seek
 
 	writeBuf      cache.WriteCache
 	cleanWriteBuf func() error
@@ -302,7 +303,8 @@ func (f *File) enterWriteMode() error {
 		}
 
 		if !f.flags.Append {
-			if _, err := f.writeBuf.Seek(0, io.SeekStart); err != nil {
+			// Continue where reads and seeks have left the position
+			if _, err := f.writeBuf.Seek(f.readOffset, io.SeekStart); err != nil {
 				return err
 			}
 		}
@@ -332,15 +334,15 @@ func (f *File) seekWithoutLocking(offset int64, whence int) (int64, error) {
 	case io.SeekStart:
 		dst = offset
 	case io.SeekCurrent:
-		curr := 0
-		if f.readOpReader != nil {
-			curr = f.readOpReader.BytesRead
-		}
-		dst = int64(curr) + offset
+		dst = f.readOffset + offset
 	case io.SeekEnd:
-		dst = f.info.Size() - offset
+		dst = f.info.Size() + offset
 	default:
 		return -1, config.ErrNotImplemented
+	}
+
+	if dst < 0 {
+		return -1, os.ErrInvalid
 	}
 
 	if f.readOpReader == nil || f.readOpWriter == nil || dst < int64(f.readOpReader.BytesRead) { // We have to re-open as we can't seek backwards
@@ -379,26 +381,15 @@ func (f *File) seekWithoutLocking(offset int64, whence int) (int64, error) {
 		f.readOpWriter = writer
 	}
 
-	written, err := io.CopyN(io.Discard, f.readOpReader, dst-int64(f.readOpReader.BytesRead))
-	if err == io.EOF {
-		// Noop
-		switch whence {
-		case io.SeekStart:
-			return offset, nil
-		case io.SeekCurrent:
-			return int64(f.readOpReader.BytesRead) + offset, nil
-		case io.SeekEnd:
-			return int64(f.info.Size()) - offset, nil
-		default:
-			return -1, config.ErrNotImplemented
-		}
-	}
-
-	if err != nil {
+	// Skip forward to the new position; seeking behind the end of the file is fine, reads there return EOF
+	if _, err := io.CopyN(io.Discard, f.readOpReader, dst-int64(f.readOpReader.BytesRead)); err != nil && err != io.EOF {
 		return -1, err
 	}
 
-	return written, nil
+	f.readOffset = dst
+
+	// Like `lseek`, return the new position
+	return dst, nil
 }
 
 // Inventory
@@ -570,6 +561,7 @@ func (f *File) Read(p []byte) (n int, err error) {
 
 	w := &bytes.Buffer{}
 	_, err = io.CopyN(w, f.readOpReader, int64(len(p)))
+	f.readOffset += int64(w.Len())
 	if err == io.EOF {
 		return copy(p, w.Bytes()), io.EOF
 	}
